@@ -201,11 +201,27 @@ def ev_append_rf(cx, recv, args):
 
 
 def ev_print(cx, recv, args):
-    for a in args:
+    INT = parse_type_str('int')
+
+    def code(a, prev):
+        """1 if the text says Aborted, 0 if it says Finished, the previous value for any other text; a text chosen by a
+        condition (cond ? "Aborted." : "Finished.") gives the corresponding choice of codes"""
+        ch = getattr(a, 'choice', None)
+        if ch is not None:
+            c_, x_, y_ = ch
+            return If(c_, code(x_, prev), code(y_, prev))
         if isinstance(a, Opaque) and 'Aborted' in a.what:
-            cx.st.scal[G + 'said_aborted'] = IntV(I(1), parse_type_str('int'))
+            return I(1)
         if isinstance(a, Opaque) and 'Finished' in a.what:
-            cx.st.scal[G + 'said_aborted'] = IntV(I(0), parse_type_str('int'))
+            return I(0)
+        return prev
+    for a in args:
+        prev = cx.st.scal.get(G + 'said_aborted')
+        if not isinstance(a, Opaque):
+            continue
+        if prev is None and getattr(a, 'choice', None) is None and not ('Aborted' in a.what or 'Finished' in a.what):
+            continue
+        cx.st.scal[G + 'said_aborted'] = IntV(code(a, prev.t if prev is not None else I(-1)), INT)
 
 
 class MainLoop(Contract):
